@@ -230,13 +230,16 @@ func getObjectValueFromKey(v interface{}, key string) (interface{}, error) {
 	switch rt.Kind() {
 	case reflect.Map:
 		mv := rv.MapIndex(reflect.ValueOf(key))
-		if mv.Kind() == 0 || mv.IsZero() {
+		if !mv.IsValid() {
 			return nil, nil
 		}
 		return mv.Interface(), nil
 		// return rv.MapIndex(reflect.ValueOf(key)).Interface(), nil
 	case reflect.Struct:
 		field := rv.FieldByName(key)
+		if !field.IsValid() || !field.CanInterface() {
+			return nil, fmt.Errorf("%T has no exported field '%s'", v, key)
+		}
 		return field.Interface(), nil
 	}
 	return nil, nil
